@@ -126,7 +126,9 @@ static bool pickEnd(World &w, vh::Rng &g, EndChoice &out, bool allowJunction, lo
 }
 
 static void doProcessed(World &w) { w.dirty = false; w.mentioned.clear(); for (auto &o : w.obst) o.pendingAdd = false; }
-static void afterMutator(World &w) { if (w.consolidate) w.dirty = true; else doProcessed(w); }
+static void dropRemoved(World &w);
+// transactions off: the mutator ends with processTransaction(), which also handles anything queued earlier
+static void afterMutator(World &w) { if (w.consolidate) w.dirty = true; else { dropRemoved(w); doProcessed(w); } }
 
 // after a processed transaction: drop obstacles whose removal was queued
 static void dropRemoved(World &w) {
@@ -221,7 +223,7 @@ static void opNewConn(World &w, vh::Rng &g) {
     // transactions off: `setEndpoints` routes after the source alone has been set; a junction source
     // with an empty route leaks a HyperedgeTreeNode (known-finding class kf-junction-halfconn-leak)
     pickEnd(w, g, a, w.consolidate); pickEnd(w, g, b, true, (a.attached && findObst(w, a.obj)->junction) ? a.obj : -1, a.attached ? a.obj : -1);
-    bool ctor3 = w.consolidate && g.coin();
+    bool ctor3 = g.coin();      // (with transactions off the 3-argument form asserted before /repo 3650d5c)
     printf("op newConn %ld %d", id, ctor3 ? 1 : 0); printEnd(a); printEnd(b); printf("\n"); flushLine();
     ConnRef *c;
     if (ctor3) c = new ConnRef(w.r, mkEnd(w, a), mkEnd(w, b), (unsigned) id);
@@ -324,6 +326,7 @@ static void routerHist(vh::Rng &g, bool big, bool allowMajor = false, bool allow
         if (!w.conns.empty()) { add(4, 2); add(5, 1); }
         if (!w.obst.empty()) { add(6, 2); add(7, 3); add(8, 1); }
         if (w.consolidate) add(9, 4);
+        if (w.consolidate && !w.obst.empty()) add(12, 2);
         if (!w.majorHyper) add(10, 1);
         // HyperedgeRerouter::registerHyperedgeForRerouting trips internal assertions on generated star hyperedges
         // (kf-hyperedge-leaf-junction, kf-hyperedge-mtst-assert); the main class keeps the weight (same random
@@ -335,10 +338,8 @@ static void routerHist(vh::Rng &g, bool big, bool allowMajor = false, bool allow
         case 0: opNewShape(w, g); done = true; break;
         case 1: opNewJunction(w, g); done = true; break;
         case 2: {
-            // transactions off: the pin constructor routes (modifyConnectionPin -> processTransaction) before the
-            // pin's vertex exists; a connector already attached to the shape dereferences it (kf-notrans-new-pin)
-            std::vector<ObstM *> c; for (auto &o : w.obst) if (!o.junction && !o.pendingRemove && o.pins.size() < 4 &&
-                (w.consolidate || o.ptr->attachedConnectors().empty())) c.push_back(&o);
+            // (with transactions off a new pin on a shape with attached connectors crashed before /repo f871b2f)
+            std::vector<ObstM *> c; for (auto &o : w.obst) if (!o.junction && !o.pendingRemove && o.pins.size() < 4) c.push_back(&o);
             if (!c.empty()) { opNewPin(w, g, *g.pick(c)); done = true; }
             break; }
         case 3: opNewConn(w, g); done = true; break;
@@ -347,20 +348,18 @@ static void routerHist(vh::Rng &g, bool big, bool allowMajor = false, bool allow
             if (!c.empty()) { opSetEndpoint(w, g, *g.pick(c)); done = true; }
             break; }
         case 5: opDeleteConn(w, (size_t) g.range(0, (long) w.conns.size() - 1)); done = true; break;
-        case 6: {   // delete obstacle (strictly legal: no queued add, not named by a queued ConnEnd; transactions off: no pins)
+        case 6: {   // delete obstacle (strictly legal: no queued add, not named by a queued ConnEnd)
             std::vector<ObstM *> c;
             for (auto &o : w.obst) {
                 if (o.pendingRemove || o.pendingAdd || w.mentioned.count(o.id)) continue;
-                if (!w.consolidate && !o.pins.empty()) continue;
                 c.push_back(&o);
             }
             if (!c.empty()) { opDeleteObst(w, *g.pick(c)); done = true; }
             break; }
-        case 7: {   // move obstacle (transactions off: nothing attached)
+        case 7: {   // move obstacle
             std::vector<ObstM *> c;
             for (auto &o : w.obst) {
                 if (o.pendingRemove) continue;
-                if (!w.consolidate && !o.ptr->attachedConnectors().empty()) continue;
                 c.push_back(&o);
             }
             if (!c.empty()) { opMoveObst(w, g, *g.pick(c)); done = true; }
@@ -371,8 +370,13 @@ static void routerHist(vh::Rng &g, bool big, bool allowMajor = false, bool allow
             if (!c.empty()) { std::pair<ObstM *, size_t> p = g.pick(c); opDeletePin(w, *p.first, p.second); done = true; }
             break; }
         case 9: opProcess(w); done = true; break;
+        case 12: {  // move an obstacle and delete it in the same pending transaction (deleteShape/deleteJunction must drop the queued move)
+            std::vector<ObstM *> c;
+            for (auto &o : w.obst) if (!o.pendingRemove && !o.pendingAdd && !w.mentioned.count(o.id)) c.push_back(&o);
+            if (!c.empty()) { ObstM *o = g.pick(c); opMoveObst(w, g, *o); w.nops++; observe(w); opDeleteObst(w, *o); done = true; }
+            break; }
         case 10: {
-            if (w.consolidate) { if (!w.dirty && w.hyperIdx.empty()) { opSetTransactionUse(w, false); done = true; } }
+            if (w.consolidate) { if (w.hyperIdx.empty()) { opSetTransactionUse(w, false); done = true; } }   // queued work is processed by the next mutator
             else { opSetTransactionUse(w, true); done = true; }
             break; }
         case 11: {  // register a hyperedge for rerouting through one of its junctions
@@ -411,7 +415,7 @@ static void routerHist(vh::Rng &g, bool big, bool allowMajor = false, bool allow
         if (!active) needProcess = true;
     }
     if (!w.consolidate && g.coin()) opSetTransactionUse(w, true);
-    if (w.consolidate && (needProcess || g.coin())) { opProcess(w); observe(w); }
+    if (needProcess || (w.consolidate && g.coin())) { opProcess(w); observe(w); }
     printf("queued %d\n", w.dirty ? 1 : 0);
     opDeleteRouter(w);
     (void) allActive;
